@@ -80,7 +80,8 @@ CLAIMED.update({
   ref="DESIGN.md 4/C03"),
  "C08": dict(
   text="Deductive proof that ValidateSubChain returns success only for a fork whose tip bundle carries a non-empty certificate, and that applyFork hands "
-       "only existing certificates to the certificate store (no crash after the rollback) for every fork ValidateSubChain can accept. Two genuine "
+       "only existing certificates to the certificate store (no crash after the rollback) for every fork ValidateSubChain can accept; "
+       "AppState.ResetTo rebuilds the validator view only after both states were rolled back successfully to the same height. Two genuine "
        "defects found by failing obligations, replayed on the real code and fixed (empty tip certificate accepted; nil intermediate certificate crashed applyFork).",
   note="Trusted: ResetTo/AddBlock/WriteCertificate do not touch the resolver or the offered bundles. Per-block validation inside the loop, the fork "
        "weight rule (checkForkSize) and 'adoption equals a clean sync' are not decided here.",
@@ -162,7 +163,8 @@ CLAIMED.update({
        "switched online there and delegations are copied only for validated identities; (2) applyStatusSwitch: an address goes online only if, in "
        "the same iteration, the stored registry said it is validated or the cache said it is a pool, and only listed online addresses go offline; "
        "(3) ValidatorsCache.UpdateFromIdentityStateDiff approves a pool it creates exactly as the rebuild does (validated and not discriminated "
-       "owner, from this diff's entry if there is one). Obligations are attached to the call sites of the registry writers (check-at).",
+       "owner, from this diff's entry if there is one); (4) the rebuild (loadValidNodes) starts its scan with every collection empty. "
+       "Obligations are attached to the call sites of the registry writers (check-at).",
   note="Only these call sites: equality of the incremental view and the rebuild as a whole (sizes, sorted validators, committees), kills and "
        "delegation switches, and histories are not decided. Trusted: golang-set, A-cache.",
   ref="DESIGN.md 4/C10, 9"),
@@ -170,7 +172,9 @@ CLAIMED.update({
   text="Deductive proof of the acceptance gates of sync artifacts: ReadTreeFrom2 (snapshot import) refuses unless the imported tree's root equals "
        "the advertised root and the tree validates, clears the target database before every refusal once the importer was opened and never clears "
        "it on success; fastSync.validateIdentityState replays exactly the block's identity diff at the block's height, refuses unless the resulting "
-       "root equals the header's identity root and rolls the replayed diff back before refusing.",
+       "root equals the header's identity root and rolls the replayed diff back before refusing; AddDiff/SaveForcedVersion align the tree version "
+       "(height-1) before the first node is written; the identity diff stored under a height is the diff of the block inserted there (non-empty "
+       "diffs are stored, an empty diff leaves none behind - found, replayed on a real reorganisation and fixed: a dropped block's diff stayed).",
   note="Trusted: iavl importer/tree (WorkingHash, ValidateTree, LoadVersion), archiver, ClearDb deletes everything (ghost counter). Not decided: "
        "that the diffs produced by Precommit reproduce the root (diff production vs replay), export/import round trip, histories with reorgs.",
   ref="DESIGN.md 4/C11, 9"),
